@@ -31,17 +31,17 @@ theorem betaBinom_closed (p F : ℚ) (hF0 : F ≠ 0) (hF1 : F ≠ 1) :
   refine ⟨?_, ?_, ?_⟩
   · unfold betaBinom
     rw [hden]
-    simp only [rising, choose, Nat.reduceSub, Nat.sub_self, Nat.sub_zero, g00]
+    simp only [rising, choose_eq, Nat.choose_zero_right, Nat.reduceSub, Nat.sub_self, Nat.sub_zero, g00]
     field_simp
     ring
   · unfold betaBinom
     rw [hden]
-    simp only [rising, choose, Nat.reduceSub, Nat.sub_self, Nat.sub_zero, g01]
+    simp only [rising, choose_eq, Nat.choose_one_right, Nat.reduceSub, Nat.sub_self, Nat.sub_zero, g01]
     field_simp
     ring
   · unfold betaBinom
     rw [hden]
-    simp only [rising, choose, Nat.reduceSub, Nat.sub_self, Nat.sub_zero, g11]
+    simp only [rising, choose_eq, Nat.choose_self, Nat.reduceSub, Nat.sub_self, Nat.sub_zero, g11]
     field_simp
     ring
 
